@@ -22,8 +22,8 @@ CLAIMED = {
     "C03": ("CFG exactly-once counting, range-order and who-writes rules on (*Mux).serve; truth-table comparison of every match() predicate with a reference formula; table agreement for registration and refusal tags",
             "Decides exactly-once, first-match order, predicate semantics of all six route kinds and the shape of the built-in refusal for all route tables and requests; handlers themselves are out of scope.",
             "2/C03", ""),
-    "C07": ("goroutine census with deferred-recover dominance check, accept-loop retry path search, exit/containment scans over the connection call-graph slice",
-            "Decides that every goroutine gldap starts for handler or decode code is fenced by recover() exactly under !disablePanicRecovery and that transient accept errors loop; correctness of bystanders' answers is not decided.",
+    "C07": ("goroutine census with deferred-recover dominance check, accept-loop retry path search, exit/containment scans over the connection call-graph slice, ownership of the per-connection reader/writer pair",
+            "Decides that every goroutine gldap starts for handler or decode code is fenced by recover() exactly under !disablePanicRecovery and that transient accept errors loop, that the accept loop (helpers included) does no per-connection I/O, and that a connection's buffered reader/writer pair is never reset, replaced or shared outside initConn; the content of bystanders' answers is not decided.",
             "2/C07", ""),
     "C04": ("symbolic interpretation of every response encoder and constructor (BER tree grammar per path, option resolution, callee inlining) compared with the RFC 4511 grammar; setter / option / NewInteger scans",
             "Decides which value ends up in which slot of which tag for all values, option subsets and setter uses; BER length/identifier octets are the library's.",
@@ -31,7 +31,7 @@ CLAIMED = {
     "C05": ("SSA must-held lock-set + path-count typestate + who-calls/who-constructs scans",
             "Sound lock-discipline argument over all schedules: every access to the shared bufio.Writer is inside one critical section of the connection's single mutex that emits exactly one whole frame and flushes it; no schedule is executed.",
             "2/C05", ""),
-    "C06": ("SSA induction-variable provenance + control-dependence of synchronous dispatch sites + wait-edge scan",
+    "C06": ("SSA induction-variable provenance + control-dependence of synchronous dispatch sites + wait-edge scan + may-held lock sets at handler calls and handler waits",
             "Decides, for every pipeline, that Request.ID is the read loop's 1,2,3,... counter and that no path of the read loop runs or waits for a handler except for Unbind/StartTLS; scheduler progress is not decided.",
             "2/C06", ""),
     "C08": ("CFG ordering / exactly-once path rules on the per-connection teardown, who-calls scans, WaitGroup pairing",
@@ -44,10 +44,10 @@ CLAIMED = {
             "All clauses structural: unbind decided before any dispatch, answer or further read, nothing read/dispatched after it, handler exactly once iff registered, no response written by gldap.",
             "2/C10", ""),
     "C11": ("necessary-condition check: asynchronous waker on shutdownCtx located by socket-use provenance + dominance, Stop ordering, lock scan",
-            "Necessary structural conditions only: an asynchronous read+write deadline/close of every connection's socket on shutdown exists, is armed before the first read and before any blocking socket I/O of the connection goroutine, and stays armed until the handlers have ended; every connWg.Add is matched; Stop orders Close/cancel before Wait. The time bound itself is not decided.",
+            "Necessary structural conditions only: an asynchronous read+write deadline/close of every connection's socket on shutdown exists, is armed before the first read and before any blocking socket I/O of the connection goroutine, and stays armed until the handlers have ended; no untracked holder of a connection socket exists and no call outside the shutdown path / connection setup / read loop (or a paired arm-clear) can clear its deadlines; the connection goroutine has no unwakeable blocking operation; every connWg.Add is matched; Stop orders Close/cancel before Wait. The time bound itself is not decided.",
             "2/C11", "Timing clause not decided."),
     "C12": ("CFG ordering rules on teardown/Run/Stop exits (must-pass-through, control dependence on the listener-closed atom)",
-            "Decides the ordering/pairing quiescence depends on: Done last, every connWg.Add matched and ordered with Stop's Wait (reserved under the lock Stop holds), handlers waited for, listener released on every Run exit, Stop returns nil only after cancel+Wait, idempotent. Kernel port state is not decided.",
+            "Decides the ordering/pairing quiescence depends on: Done last, every connWg.Add matched and ordered with Stop's Wait (reserved under the lock Stop holds), handlers waited for, no other goroutine handed an accepted connection, listener released on every Run exit, Stop returns nil only after cancel+Wait, idempotent. Kernel port state is not decided.",
             "2/C12", ""),
     "C13": ("control-dependence of the StartTLS dispatch site, value provenance in StartTLS/initConn, lock-set, socket-use discipline scan",
             "Decides that no LDAP read can interleave with the upgrade and that after it all I/O goes through the TLS reader/writer pair built from the handshaken connection, and that no deadline armed during the upgrade outlives it; crypto/tls behaviour is trusted.",
@@ -62,7 +62,7 @@ CLAIMED = {
             "Decides panic freedom (enumerated classes) for all argument values and option subsets, deterministic attribute order and paired string/byte values; the value-level inverse clauses are not decided.",
             "2/C16", ""),
     "C17": ("control-dependence of flag stores on net.Listen's error + who-writes + lock-set",
-            "Decides the only-if-bound direction for every address and schedule, and that Run does not give up between Ready and the first Accept; kernel accept behaviour is not decided.",
+            "Decides the only-if-bound direction for every address and schedule, that Run does not give up between Ready and the first Accept, and that nothing the accept loop does between two Accepts waits for a single client (no server lock taken by connections, no handshake / read / write on the accepted connection); kernel accept behaviour is not decided.",
             "2/C17", ""),
     "C18": ("listener provenance through functional-option summaries, socket-use discipline, constant/provenance checks on the test directory's tls.Config",
             "Decides that on a TLS port the only byte source of a handler is a tls.Conn created from exactly the configured policy (stream provenance of every initConn call), and that the test directory's mTLS policy requires and verifies client certificates; crypto/tls is trusted.",
@@ -71,7 +71,7 @@ CLAIMED = {
             "Decides the if-and-only-if of the statement for every user set, DN and password (one symbolic user = existential over the list), independent of transport.",
             "2/C19", ""),
     "C20": ("per-handler effect analysis: stores reachable from the matched entry on every path of each modify arm, success/store pairing by path search, default-code and result-source provenance",
-            "Necessary per-handler clauses only (effects exist, success pairs with the store, codes, result source); whole operation histories against a reference model are not replayed.",
+            "Necessary per-handler clauses only (effects exist, success pairs with the store, codes, result source, Set* stores exactly the given population in storage of its own); whole operation histories against a reference model are not replayed.",
             "2/C20", "History clauses not decided."),
 }
 
